@@ -21,17 +21,15 @@ Theorem c13_one_match_rule : forall s, matches_of forms s = [] \/ exists x, matc
 Proof. exact one_match_rule. Qed.
 Print Assumptions c13_one_match_rule.
 
-(** On every query without non-ASCII bytes the recogniser accepts exactly the DOCUMENTED
-    language (plain ASCII case-insensitivity) ... *)
-Theorem c13_documented_exact : forall s c a, known_fold s = false ->
-  (classify s = Some (c, a) <-> LangDoc c a s).
-Proof. exact classify_documented. Qed.
-Print Assumptions c13_documented_exact.
+(** Commands are pure ASCII: a query containing any non-ASCII byte (U+017F, U+212A, invalid
+    UTF-8, ...) is never a command (the regexes carry (?i-u)). *)
+Theorem c13_commands_are_ascii : forall c a s, Lang c a s -> is_ascii s = true.
+Proof. exact Lang_ascii. Qed.
+Print Assumptions c13_commands_are_ascii.
 
-(** ... and outside that class it accepts more (D2: U+017F / U+212A inside keywords). *)
-Theorem c13_fold_refuted : exists s c a, classify s = Some (c, a) /\ ~ LangDoc c a s.
-Proof. exact fold_refuted. Qed.
-Print Assumptions c13_fold_refuted.
+Theorem c13_non_ascii_never_command : forall s, is_ascii s = false -> classify s = None.
+Proof. exact non_ascii_never_command. Qed.
+Print Assumptions c13_non_ascii_never_command.
 
 (** A query is answered by the pooler iff it is a command; anything else is left alone
     (state unchanged, nothing written, the message goes on to the server as it is). *)
@@ -67,8 +65,7 @@ Theorem c13_replies_wellformed : forall r, reply_ok r ->
 Proof. exact replies_wellformed. Qed.
 Print Assumptions c13_replies_wellformed.
 
-(** SHOW reports what the preceding SETs established, after ANY sequence of commands
-    (outside the known class D1). *)
+(** SHOW reports what the preceding SETs established, after ANY sequence of commands. *)
 Theorem c13_show_reflects_sets : forall e l, wf_env e -> Forall (input_ok e) l ->
   let st := fst (run e (init e) l) in
   let x := arun e ainit l in
@@ -77,15 +74,6 @@ Theorem c13_show_reflects_sets : forall e l, wf_env e -> Forall (input_ok e) l -
   handle e st ShowPrimaryReads [] 0 = (st, RShow (B "primary reads") (render_preads e x)).
 Proof. exact show_reflects_sets. Qed.
 Print Assumptions c13_show_reflects_sets.
-
-(** D1: SET PRIMARY READS TO OFF is acknowledged and ignored. *)
-Theorem c13_show_refuted : exists e l, wf_env e /\
-  Forall (fun i => recognised i /\ snd i < e_shards e) l /\
-  existsb (fun i => known_c13 (fst (fst i)) (snd (fst i))) l = true /\
-  snd (handle e (fst (run e (init e) l)) ShowPrimaryReads [] 0)
-    <> RShow (B "primary reads") (render_preads e (arun e ainit l)).
-Proof. exact show_refuted. Qed.
-Print Assumptions c13_show_refuted.
 
 (** Numbers of any length: recognised, and when they do not fit they are refused with an
     error reply and the state is exactly what it was. *)
@@ -120,13 +108,13 @@ Print Assumptions c13_never_invalid.
 (** The table the recogniser runs on IS the seven literals of query_router.rs:30-38
     (also compared with the literals extracted from the source on every run). *)
 Example forms_are_the_regexes : map render_form forms =
-  [ B "(?i)^ *SET SHARDING KEY TO '?([0-9]+)'? *;? *$";
-    B "(?i)^ *SET SHARD TO '?([0-9]+|ANY)'? *;? *$";
-    B "(?i)^ *SHOW SHARD *;? *$";
-    B "(?i)^ *SET SERVER ROLE TO '(PRIMARY|REPLICA|ANY|AUTO|DEFAULT)' *;? *$";
-    B "(?i)^ *SHOW SERVER ROLE *;? *$";
-    B "(?i)^ *SET PRIMARY READS TO '?(on|off|default)'? *;? *$";
-    B "(?i)^ *SHOW PRIMARY READS *;? *$" ].
+  [ B "(?i-u)^ *SET SHARDING KEY TO '?([0-9]+)'? *;? *$";
+    B "(?i-u)^ *SET SHARD TO '?([0-9]+|ANY)'? *;? *$";
+    B "(?i-u)^ *SHOW SHARD *;? *$";
+    B "(?i-u)^ *SET SERVER ROLE TO '(PRIMARY|REPLICA|ANY|AUTO|DEFAULT)' *;? *$";
+    B "(?i-u)^ *SHOW SERVER ROLE *;? *$";
+    B "(?i-u)^ *SET PRIMARY READS TO '?(on|off|default)'? *;? *$";
+    B "(?i-u)^ *SHOW PRIMARY READS *;? *$" ].
 Proof. vm_compute. reflexivity. Qed.
 
 Example accepted_spellings :
@@ -163,8 +151,11 @@ Example lang_member : Lang SetShard (B "any") (B " set shard to 'any ;").
 Proof. apply c13_exact. vm_compute. reflexivity. Qed.
 Example lang_nonmember : forall c a, ~ Lang c a (B "SET SHARD TO 1; SELECT 1").
 Proof. intros c a H. apply c13_exact in H. vm_compute in H. discriminate. Qed.
-Example fold_member : Lang SetShardingKey (B "5") ([197; 191] ++ B "ET SHARDING " ++ [226; 132; 170] ++ B "EY TO 5").
-Proof. apply c13_exact. vm_compute. reflexivity. Qed.
+(* regression (former D2): U+017F for S, U+212A for K *)
+Example fold_nonmember :
+  classify ([197; 191] ++ B "ET SHARD TO 1") = None /\
+  classify (B "SET SHARDING " ++ [226; 132; 170] ++ B "EY TO 5") = None.
+Proof. vm_compute. split; reflexivity. Qed.
 
 Definition e5 : env := mkEnv 5 None false true.
 
@@ -172,9 +163,9 @@ Definition e5 : env := mkEnv 5 None false true.
 Definition session : list input :=
   [ (SetShard, B "3", 0); (SetShard, B "7", 0); (SetShard, B "99999999999999999999999", 0); (SetShard, B "aNy", 4);
     (SetShardingKey, B "12", 2); (SetShardingKey, B "9223372036854775808", 1);
-    (SetServerRole, B "Replica", 0); (SetServerRole, B "AUTO", 0); (SetPrimaryReads, B "off", 0); (ShowShard, [], 0) ].
+    (SetServerRole, B "Replica", 0); (SetServerRole, B "AUTO", 0); (SetPrimaryReads, B "OFF", 0); (ShowShard, [], 0) ].
 
-Ltac ok_by s := split; [apply (rec_by _ (B s)); vm_compute; reflexivity | split; vm_compute; reflexivity].
+Ltac ok_by s := split; [apply (rec_by _ (B s)); vm_compute; reflexivity | vm_compute; reflexivity].
 
 Example session_hypotheses : wf_env e5 /\ Forall (input_ok e5) session.
 Proof.
@@ -187,7 +178,7 @@ Proof.
   apply Forall_cons; [ok_by "SET SHARDING KEY TO 9223372036854775808"%string|].
   apply Forall_cons; [ok_by "SET SERVER ROLE TO 'Replica'"%string|].
   apply Forall_cons; [ok_by "SET SERVER ROLE TO 'AUTO'"%string|].
-  apply Forall_cons; [ok_by "SET PRIMARY READS TO off"%string|].
+  apply Forall_cons; [ok_by "SET PRIMARY READS TO OFF"%string|].
   apply Forall_cons; [ok_by "SHOW SHARD"%string|]. apply Forall_nil.
 Qed.
 
@@ -203,6 +194,15 @@ Example session_result :
   fst (run e5 (init e5) session) = mkSt (Some 2) None (Some true) (Some false) /\
   arun e5 ainit session = mkA (Some 2) RS_auto T_off.
 Proof. vm_compute. repeat split. Qed.
+
+(* regression (former D1): any capitalisation of the argument takes effect and SHOW reports it *)
+Example primary_reads_any_case :
+  snd (run (mkEnv 1 None false true) (init (mkEnv 1 None false true))
+         [(SetPrimaryReads, B "OFF", 0); (ShowPrimaryReads, [], 0); (SetPrimaryReads, B "On", 0); (ShowPrimaryReads, [], 0);
+          (SetPrimaryReads, B "OFF", 0); (SetPrimaryReads, B "DeFaUlT", 0); (ShowPrimaryReads, [], 0)]) =
+  [ ROk (B "SET PRIMARY READS"); RShow (B "primary reads") (B "off"); ROk (B "SET PRIMARY READS"); RShow (B "primary reads") (B "on");
+    ROk (B "SET PRIMARY READS"); ROk (B "SET PRIMARY READS"); RShow (B "primary reads") (B "on") ].
+Proof. vm_compute. reflexivity. Qed.
 
 (** the exact bytes of the three reply kinds *)
 Example bytes_ok : encode (ROk (B "SET SHARD")) =
